@@ -27,7 +27,7 @@ var registry = map[string]*PropSpec{}
 
 func register(p *PropSpec) { registry[p.ID] = p }
 
-var wholePatterns = []string{"./pkg/...", "./istio/...", "./cmd/...", "./examples/codes/..."}
+var wholePatterns = []string{"./pkg/...", "./istio/...", "./cmd/..."}
 
 func main() {
 	prop := flag.String("prop", "", "property id (C01..C20)")
